@@ -51,10 +51,11 @@ ALIAS = {            # (x1, x2, out) as indices into the three allocated element
 EXOTIC = ('float16', 'float128', '>f8', '>f4', '>f2')      # floating, legal, never BLAS
 
 
-def dtinfo(dtype):
-    """Coq literal of what the dispatch can see of a dtype: character code of dtype.char, native byte order."""
+def dtinfo(dtype, shape):
+    """Coq literal of what the dispatch can see of an array besides contiguity: character code of dtype.char,
+    native byte order, len() = length of axis 0."""
     d = np.dtype(dtype)
-    return '(mkdt %d %s)' % (ord(d.char), C.b(bool(d.isnative)))
+    return '(mkdt %d %s %d)' % (ord(d.char), C.b(bool(d.isnative)), int(shape[0]) if len(shape) else 1)
 
 
 def lit(carrier, v):
@@ -225,7 +226,7 @@ def lincomb_case(rng, dtype, shape, layouts, alias, a, b, poison, full=False):
         return lits(carrier, flat)
 
     term = ('mkL %s %s %s (%d, %d, %d)%%nat %d %s %s [%s] [%s]'
-            % (C.b(fl), dtinfo(dtype),
+            % (C.b(fl), dtinfo(dtype, shape),
                '[' + '; '.join('(%s, %s)' % (C.b(c), C.b(f)) for c, f in flags) + ']',
                ix1, ix2, iout, n if sized else 0, lit(carrier, pa), lit(carrier, pb),
                '; '.join(buf_term(k, before[k], True) for k in range(3)),
@@ -280,7 +281,7 @@ def lincomb_cases(rng, tier, S):
     quick = tier == 'quick'
     small = [(1,), (2,), (3,), (99,), (3, 4), (2, 3, 2)]
     med = [(100,), (101,), (10, 10), (4, 5, 5), (20, 6), (1000,)]
-    edge = [(49999,), (50001,), (250, 200), (4999,)]
+    edge = [(49999,), (50001,), (250, 200), (4999,), (60000, 2), (2, 60000), (50000, 1)]
     if not quick:
         small += [(7, 14), (98,), (5,)]
         med += [(128,), (30, 40), (2, 50)]
@@ -456,7 +457,7 @@ class Ctx(object):
             arr = np.full(arr.shape, np.nan if self.poison else 0, dtype=complex if arr.dtype.kind == 'c' else float)
         self.init.append(arr)
         self.flags.append(flags_of(t.data))
-        self.bdt.append(dtinfo(t.data.dtype))
+        self.bdt.append(dtinfo(t.data.dtype, t.data.shape))
         return len(self.objs) - 1
 
     def term(self, el, fresh=False):
@@ -492,7 +493,7 @@ class Ctx(object):
         else:
             self.init.append(np.full(t.data.shape, np.nan if self.poison else 0, dtype=kind))
         self.flags.append((True, t.data.ndim <= 1))
-        self.bdt.append(dtinfo(t.data.dtype))
+        self.bdt.append(dtinfo(t.data.dtype, t.data.shape))
         return '(Leaf %d)' % (len(self.objs) - 1)
 
 
@@ -1379,12 +1380,34 @@ def _large_family(out, rng, quick, full=False):
                        seed=rng.randint(0, 10 ** 6), nan_out=False)
 
 
+def _nd_family(out, rng, quick):
+    """N-d shapes with every combination of {long, short} first / last axis around the two thresholds: `size`
+    must be the number of entries (not len() = the first axis) for the dispatch and for the BLAS vector length."""
+    shapes = [(60000, 2), (2, 60000), (50000, 1), (1, 50000), (250, 200), (200, 250), (100, 1), (1, 100), (99, 2), (2, 99),
+              (50, 2), (49999, 2), (25000, 2, 1)]
+    dts = ['float64', 'complex128', 'float32'] if quick else ['float64', 'float32', 'complex128', 'complex64', 'float16', '>f8']
+    for dtype in dts:
+        base = DT[str(np.dtype(dtype))][0]
+        pairs = [pr for pr in (CX_PAIRS if base == 'cx' else REAL_PAIRS) if pr[0] != 0 and pr[1] != 0]
+        for shape in shapes:
+            for lay in (('CCC', 'FFF') if (quick and dtype != 'float64') else ('CCC', 'FFF', 'CFC', 'FCF')):
+                for alias in ALIAS:
+                    nan_out = alias in ('distinct', 'x1_is_x2')
+                    a, b = rng.choice(pairs)
+                    _probe(out, 'lincomb-nd-%s-%s-%s-%s' % ('x'.join(map(str, shape)), lay, alias, dtype),
+                           'space.lincomb(%r, x1, %r, x2, out) on %s%r layouts %s, alias %s%s (whole array vs a*x1+b*x2 on copies)'
+                           % (a, b, dtype, shape, lay, alias, ', out NaN-filled' if nan_out else ''),
+                           'lincomb', dtype=dtype, shape=list(shape), layouts=lay, alias=alias, a=a, b=b,
+                           seed=rng.randint(0, 10 ** 6), nan_out=nan_out)
+
+
 def search(rng, broken):
     """The translator or a proof broke: run the large-array family over the full dtype / layout / alias
     list (and the integer and data-operand families through the thorough probes of the driver) to obtain a
     concrete input on which the property itself fails."""
     known = C.load_findings(PID)
     found = []
+    _nd_family(found, rng, quick=False)
     _large_family(found, rng, quick=False, full=True)
     for pr in found:
         if not pr.ok and pr.key not in known:
@@ -1417,6 +1440,7 @@ def probes(rng, tier):
                            'other operands bit-identical' % (a, b, dtype, shape, lay, alias),
                            'lincomb', dtype=dtype, shape=list(shape), layouts=lay, alias=alias, a=a, b=b,
                            seed=rng.randint(0, 10 ** 6), nan_out=bool(nan_out))
+    _nd_family(out, rng, quick)
     _large_family(out, rng, quick)
     # 1c. integer dtypes around the 100-entry switch, all alias patterns, scalars that use both operands
     for dtype in ('int64', 'int32'):
